@@ -129,9 +129,13 @@ func evkLeaf(c *engine.Chooser, name string, k cfg) {
 		crps := make([]multiparty.EvaluationKeyGenCRP, k.n)
 		shares := make([]multiparty.EvaluationKeyGenShare, k.n)
 		for i := range protos {
-			if hist > 0 { // the instance already produced a share of another shape with other keys
+			if hist > 0 { // the instance already produced a share of another shape: with the same key objects (1) / other keys (2)
 				scratch := protos[i].AllocateShare(alt)
-				_ = protos[i].GenShare(Out.SK[i], In.SK[(i+1)%k.n], protos[i].SampleCRP(mp.CRS(1-k.crs), alt), &scratch)
+				a, b := In.SK[i], Out.SK[i]
+				if hist == 2 {
+					a, b = Out.SK[i], In.SK[(i+1)%k.n]
+				}
+				_ = protos[i].GenShare(a, b, protos[i].SampleCRP(mp.CRS(1-k.crs), alt), &scratch)
 			}
 			crps[i] = protos[i].SampleCRP(mp.CRS(k.crs), evkp)
 			shares[i] = protos[i].AllocateShare(evkp)
@@ -182,7 +186,8 @@ func evkLeaf(c *engine.Chooser, name string, k cfg) {
 		for i := range protos {
 			if hist > 0 { // the instance already produced a share of another shape for another Galois element
 				scratch := protos[i].AllocateShare(alt)
-				_ = protos[i].GenShare(In.SK[(i+1)%k.n], altGalEl(params, k.galEl), protos[i].SampleCRP(mp.CRS(1-k.crs), alt), &scratch)
+				// hist 1: the same key object and Galois element at a lower shape; hist 2: another key, another element
+				_ = protos[i].GenShare(In.SK[(i+hist-1)%k.n], []uint64{k.galEl, altGalEl(params, k.galEl)}[hist-1], protos[i].SampleCRP(mp.CRS(1-k.crs), alt), &scratch)
 			}
 			crps[i] = protos[i].SampleCRP(mp.CRS(k.crs), evkp)
 			shares[i] = protos[i].AllocateShare(evkp)
@@ -273,6 +278,27 @@ func evkLeaf(c *engine.Chooser, name string, k cfg) {
 	if key.BaseTwoDecomposition != k.b2 {
 		c.Fail(sig+"/"+fn+"/wrong-base2", "key BaseTwoDecomposition=%d, want %d", key.BaseTwoDecomposition, k.b2)
 		return
+	}
+
+	// evaluator-independent oracle: every row of the key is an RLWE sample, under the ideal output secret, of the
+	// gadget multiple of the ideal input secret, with an error that is the sum of the N parties' errors: <= N*B.
+	// (For a Galois key the protocol's output secret is the ideal secret moved by the inverse Galois element.)
+	{
+		sIn, sOut := mp.SecretInts(params, In.Ideal), mp.SecretInts(params, Out.Ideal)
+		if k.proto == "gal" {
+			nth := params.RingQ().NthRoot()
+			inv := uint64(1)
+			for inv*k.galEl%nth != 1 {
+				inv += 2
+			}
+			sOut = mp.RingAuto(params, sIn, inv)
+		}
+		rowBound := new(big.Int).Mul(big.NewInt(int64(k.n)), mp.XeSup(params.Xe()))
+		if worst := mp.KeyRowNoise(params, &key.GadgetCiphertext, sIn, sOut); worst.Cmp(rowBound) > 0 {
+			c.Fail(sig+"/key-rows/not-samples-of-the-ideal-secret", "a key row is not b = -a*s_out + P*w*s_in + e with |e| <= %d parties x %v: largest |e| = %v", k.n, mp.XeSup(params.Xe()), worst)
+			return
+		}
+		c.Cover("functional", "key-rows")
 	}
 
 	// functional oracle: the key re-encrypts from the ideal input secret to the ideal output secret
